@@ -491,7 +491,7 @@ def parser_termination(tier):
     src = os.path.dirname(os.path.dirname(aioftp.__file__))
     part = report.Partial()
     inputs = list(enumerate(pump_inputs(tier)))
-    budget = 3.0                     # seconds of wall clock for ONE input of at most ~20 KB; linear parsers need microseconds
+    budget = 10.0                    # seconds of wall clock for ONE input of at most ~20 KB; linear parsers need microseconds
     pos = 0
     ctx = mp.get_context("fork")
     while pos < len(inputs):
@@ -553,7 +553,7 @@ def run(tier, seed, t0):
     bounds = {"parser_seeds": {"unix": len(UNIX), "windows": len(WINDOWS), "mlsx": len(MLSX), "pasv": len(PASV), "epsv": len(EPSV),
                                "257": len(D257)}, "mutation_alphabet": len(GAMMA),
               "termination": "every parser seed with runs of 30/400%s repetitions of 16 token classes pumped in at every token "
-                             "boundary + a late-failing tail; each input in a child process with a 3 s wall-clock budget"
+                             "boundary + a late-failing tail; each input in a child process with a 10 s wall-clock budget"
                              % ("" if tier == "quick" else "/20000"),
               "operators": ["delete 1..6", "insert", "replace", "truncate head/tail", "swap tokens", "duplicate token"],
               "pairs": "window %d" % (12 if tier == "quick" else 40), "client_e2e_cases": ncases,
